@@ -391,6 +391,7 @@ type LoopSpec struct {
 	Exits      []*Clause // proved on every edge that leaves the loop (state of the exiting iteration)
 	Invariants []*Clause
 	Decreases  *Clause
+	FrameEntry bool // `loop k: frame entry`
 }
 
 type Let struct {
@@ -414,6 +415,7 @@ type Contract struct {
 	Ensures  []*Clause
 	Modifies []string // heap keys patterns; nil = unspecified (derive / everything for extern)
 	HasMod   bool
+	Decreases *Clause // variant for recursive calls of the function itself
 	Pure     bool
 	Loops    map[int]*LoopSpec
 	AtCalls  []*AtCall
@@ -494,7 +496,7 @@ func parseContractFile(path string) (*ContractFile, error) {
 			first = body[:k]
 		}
 		switch first {
-		case "func", "extern", "requires", "ensures", "let", "modifies", "pure", "loop", "spec", "ghost", "lemma", "axiom", "at", "opt", "results", "params", "recv":
+		case "func", "extern", "requires", "ensures", "let", "modifies", "pure", "loop", "spec", "ghost", "lemma", "axiom", "at", "opt", "results", "params", "recv", "decreases":
 			raws = append(raws, rawClause{body, i + 1})
 		default:
 			if len(raws) == 0 {
@@ -564,6 +566,16 @@ func parseContractFile(path string) (*ContractFile, error) {
 					cur.Modifies = append(cur.Modifies, m)
 				}
 			}
+		case "decreases":
+			// function-level variant (termination of recursion)
+			c, err := mkClause(kw, rest, rc.line)
+			if err != nil {
+				return nil, err
+			}
+			if cur == nil {
+				return nil, fmt.Errorf("%s:%d: decreases outside a function contract", path, rc.line)
+			}
+			cur.Decreases = c
 		case "pure":
 			cur.Pure = true
 			cur.HasMod = true
@@ -589,6 +601,14 @@ func parseContractFile(path string) (*ContractFile, error) {
 			if ls == nil {
 				ls = &LoopSpec{}
 				cur.Loops[n] = ls
+			}
+			if k2 == "frame" {
+				// loop N: frame entry
+				if strings.TrimSpace(r2) != "entry" {
+					return nil, fmt.Errorf("%s:%d: want `loop N: frame entry`", path, rc.line)
+				}
+				ls.FrameEntry = true
+				continue
 			}
 			c, err := mkClause(k2, r2, rc.line)
 			if err != nil {
